@@ -427,9 +427,8 @@ func allKinds() []*wkind {
 	ks = append(ks, &wkind{name: "map[string]interface{}", mk: func() interface{} {
 		return ptr(map[string]interface{}{"n": int64(1), "s": In{2}, "p": &In{3}, "l": sliceWithSpare[interface{}](int64(4)), "m": map[string]interface{}{"k": int64(5)}, "z": nil})
 	}, byValue: true, probes: []string{"n", "s", "p", "l", "m", "z", "q"},
-		alpha: alphabet{targets: []target{tgtW, tgtH0}, keys: []keyDef{kStr("n"), kStr("s"), kStr("p"), kStr("l"), kStr("m"), kStr("z"), kStr("q"), kStr("X"), kStr("k"), kIdx(0)},
-			takes: []int{0}, reads: true, dels: true, vals: []valDef{val7, valNull, litIn, litA2, valH0, valW}, defVals: []valDef{val7},
-			pushVals: []valDef{val7}, arrayOps: true,
+		alpha: alphabet{targets: []target{tgtW, tgtH0}, keys: []keyDef{kStr("n"), kStr("s"), kStr("p"), kStr("l"), kStr("m"), kStr("q"), kStr("X"), kIdx(0)},
+			takes: []int{0}, reads: true, dels: true, vals: []valDef{val7, valNull, litIn, valH0, valW}, defVals: []valDef{val7},
 			goOps: []goOp{{"m[n]=9", "map-replace", func(h reflect.Value) { (*hostOf[map[string]interface{}](h))["n"] = int64(9) }},
 				{"delete(m,s)", "map-delete", func(h reflect.Value) { delete(*hostOf[map[string]interface{}](h), "s") }}}},
 		depthQ: 3, depthT: 4})
